@@ -6,6 +6,7 @@ package main
 import (
 	"fmt"
 	"go/ast"
+	"go/constant"
 	"go/token"
 	"go/types"
 	"sort"
@@ -121,6 +122,14 @@ func (ex *Exec) initState(fi *FuncInfo) *State {
 			ex.declVar(st, r, zeroVal(r.Type()))
 		}
 	}
+	// implicit contract: a pointer receiver is not nil (asserted at every in-package call site)
+	if r := fi.Sig.Recv(); r != nil && r.Name() != "" && r.Name() != "_" {
+		if _, isPtr := r.Type().Underlying().(*types.Pointer); isPtr {
+			if v, ok := ex.paramEnv[r.Name()]; ok {
+				st.assume(Neq(v.C[0], IntLit(0)))
+			}
+		}
+	}
 	return st
 }
 
@@ -168,11 +177,16 @@ func (ex *Exec) verifyFunc() (res *FuncResult) {
 		}
 		ex.instantiateGhostFuns(st, con, ex.fnCtx(ex.pre, nil), ex.ghosts, sanitize(fi.Key), true)
 		for i, r := range con.Requires {
+			if ex.safetyOnly && isFnLabel(r.Label) {
+				continue // the sweep checks panic-freedom without the functional preconditions
+			}
 			t := ex.evalSpecBoolAt(ex.fnCtx(st, nil), r.E, fmt.Sprintf("%s requires %d", fi.Key, i+1))
 			st.assume(t)
 		}
 		ex.pre.facts = append([]*Term(nil), st.facts...)
-		ex.proveLemmas(st, con)
+		if !ex.safetyOnly {
+			ex.proveLemmas(st, con)
+		}
 	}
 	// vacuity canary: the assumptions at entry must not be contradictory
 	ex.canary(st, "entry")
@@ -187,6 +201,10 @@ func (ex *Exec) verifyFunc() (res *FuncResult) {
 		ord := i + 1
 		if r.site != nil {
 			ord = ex.retOrd[r.site]
+		}
+		if ex.safetyOnly && con != nil && hasFnRequires(con) {
+			ex.canary(r.st, fmt.Sprintf("ret%d", ord))
+			continue // functional ensures are discharged under the property that owns the contract
 		}
 		ex.checkReturn(r, ord, con)
 	}
@@ -490,6 +508,35 @@ func (ex *Exec) globalKnowledge(o *types.Var, v Val) []*Term {
 	if fs, ok := ex.P.TableFacts[o.Pkg().Name()+"."+o.Name()]; ok {
 		out = append(out, fs(v)...)
 	}
+	// package-level slices initialised by a composite literal or []byte("const"): non-nil, known length
+	if _, isSl := o.Type().Underlying().(*types.Slice); isSl && o.Pkg() != nil && o.Pkg().Path() == repoPkgPath && len(v.C) == 4 {
+		if init := ex.globalInit(o); init != nil {
+			n := int64(-1)
+			switch x := unparen(init).(type) {
+			case *ast.CompositeLit:
+				keyed := false
+				for _, el := range x.Elts {
+					if _, ok := el.(*ast.KeyValueExpr); ok {
+						keyed = true
+					}
+				}
+				if !keyed {
+					n = int64(len(x.Elts))
+				}
+			case *ast.CallExpr:
+				if len(x.Args) == 1 {
+					if tv, ok := ex.P.Info.Types[x.Args[0]]; ok && tv.Value != nil && tv.Value.Kind() == constant.String {
+						if tvf, okf := ex.P.Info.Types[x.Fun]; okf && tvf.IsType() {
+							n = int64(len(constant.StringVal(tv.Value)))
+						}
+					}
+				}
+			}
+			if n >= 0 {
+				out = append(out, Eq(v.C[2], IntLit(n)), Neq(v.C[0], IntLit(0)), Eq(v.C[1], IntLit(0)))
+			}
+		}
+	}
 	// error sentinels are non-nil and pairwise distinct by identity
 	if isIface(o.Type()) && strings.HasPrefix(o.Name(), "Err") || o.Name() == "EOF" || o.Name() == "ErrUnexpectedEOF" {
 		if len(v.C) == 2 {
@@ -575,4 +622,13 @@ func (ex *Exec) applyUses(st *State, uses []*LemmaUse, when string, pos token.Po
 		lc := ex.fnCtx(ex.pre, nil)
 		st.assume(ex.lemmaTerm(lc, ex.ghosts, lem, inst))
 	}
+}
+
+func hasFnRequires(c *Contract) bool {
+	for _, r := range c.Requires {
+		if isFnLabel(r.Label) {
+			return true
+		}
+	}
+	return false
 }
